@@ -411,8 +411,8 @@ func lifecycleCase(e *core.Env, ci int, r *core.RNG, s *sched) {
 		}
 		hookReached = svx.Poll(3*time.Second, func() bool { return held.Load() == 1 })
 		go func() {
-			// let Stop run against the paused goroutine, then resume it
-			vtime.RealSleep(30 * time.Millisecond)
+			// let Stop run against the paused goroutine (it must have passed its session-table sweep), then resume it
+			vtime.RealSleep(300 * time.Millisecond)
 			once.Do(func() { close(gate) })
 		}()
 		finish()
@@ -424,9 +424,11 @@ func lifecycleCase(e *core.Env, ci int, r *core.RNG, s *sched) {
 		if !newPeers(min(s.NSess, 4)) {
 			return
 		}
-		for k, p := range peers {
-			p.Send(tgt(k, false), []byte("nope"))
-			p.Send(tgt(k, false), []byte("nope2"))
+		// bursts: further packets of the same client are dispatched while the failed session is being torn down
+		for q := 0; q < 2+s.Queued; q++ {
+			for k, p := range peers {
+				p.Send(tgt(k, false), []byte("nope"))
+			}
 		}
 		msg := "Failed to get UDP client"
 		if s.Phase == "init-upstream-refused" {
